@@ -62,8 +62,18 @@ def sweep(ctx, A, entry='mixed'):
             Sset = set(S)
             levels = {bdd.vars[v] for v in S}
             for k, (t, r) in enumerate(A.R.items()):
-                how = (k + len(S)) % 4
-                if how == 0:
+                how = (k + len(S)) % 8
+                if how == 4:
+                    got = bdd.quantify(u=r, qvars=tuple(S), forall=fa)
+                elif how == 5:
+                    got = bdd.quantify(r, (v for v in S), fa)
+                elif how == 6:
+                    got = (bdd.forall if fa else bdd.exist)(
+                        frozenset(S), r)
+                elif how == 7:
+                    got = (bdd.forall if fa else bdd.exist)(
+                        {v: None for v in S}.keys(), u=r)
+                elif how == 0:
                     got = bdd.quantify(r, Sset, forall=fa)
                 elif how == 1:
                     got = (bdd.forall if fa else bdd.exist)(list(S), r)
